@@ -10,9 +10,11 @@
   here. `clear`: see `clear_fresh` (from the refinement layer): the cleared state satisfies the concrete
   invariant with the abstract state `A.fresh`, its data area is zero and its prefix untouched; since every
   later answer is a function of the abstract state (refinement theorems) the cleared arena and a fresh
-  one give equal answers to every later history.
+  one give equal answers to every later history. `clear` is also a call of the universally quantified
+  histories (`HOp.clear`: every held and detached handle is forgotten, as the contract of the API
+  demands): `clear_in_history`.
 -/
-import RarenaVerif.Proofs.RefineMisc
+import RarenaVerif.Props.Common
 
 namespace Rarena.C17
 
@@ -79,6 +81,24 @@ theorem clear_fresh (c : Cfg) (s : St) (free : List Seg) (lives : List Ext) (h :
 
 theorem clear_read_only (c : Cfg) (s : St) (hro : c.ro = true) : clear c s = .error .readOnly :=
   clear_ro c s hro
+
+/-- `clear` as a call of a history (`HOp.clear`): from every reachable state it completes, forgets every held and
+    detached handle, and reaches a state — itself reachable, so every property of reachable states holds for
+    whatever is done next — that represents the fresh abstract allocator with the same capacity and the minimum
+    segment size in force, with a zero data area and an untouched prefix -/
+theorem clear_in_history (o : Opts) (g : Guards o) (fuel : Nat) (hfuel : o.cap + 2 ≤ fuel) (x : CSess)
+    (hr : Reachable o fuel x) :
+    ∃ x', cstep o.cfg fuel x (.op .clear) = .ok x' ∧ Reachable o fuel x' ∧ x'.held = [] ∧ x'.detached = [] ∧
+      CInv o.cfg x'.st [] [] ∧ x'.st.abs [] = A.fresh x.st.cap o.cfg.dataOffset x.st.minSeg ∧
+      PrefixIntact o.cfg x.st x'.st ∧ (∀ i, o.cfg.dataOffset ≤ i → x'.st.mem.rd i = 0) := by
+  obtain ⟨free, lives, ci, _, _⟩ := reachable_cinv o g fuel hfuel x hr
+  obtain ⟨s', e1, hc, habs, hpre, _, hz⟩ := clear_refines o.cfg x.st free lives ci o.cfg_ro
+  obtain ⟨x', e, hr'⟩ := reachable_step o g fuel hfuel x hr (.op .clear) trivial trivial
+  have hx : x' = { st := s', held := [], detached := [] } := by
+    simp only [cstep, e1, pure, Except.pure, Except.ok.injEq] at e
+    exact e.symm
+  subst hx
+  exact ⟨_, e, hr', rfl, rfl, hc, habs, hpre, hz⟩
 
 /-! non-vacuity -/
 def exS : St := { mem := Array.replicate 200 0, sentinel := SENTINEL_WORD, allocated := 100, minSeg := 20, discarded := 0 }
